@@ -11,6 +11,9 @@ From TV Require Import Model.Engine Model.EngineToy Proofs.EngineMemo Proofs.Eng
   Proofs.EngineScribble Proofs.EngineToyProofs Proofs.EngineNoScribble
   Model.EngineLayouts Model.EngineLayoutsToy Proofs.EngineLayoutsPlain Proofs.EngineLayoutsMemo Proofs.EngineLayoutsHistory
   Proofs.EngineLayoutsToy Model.EngineReplay Proofs.EngineReplay Proofs.EngineTotal.
+From Coq Require Import ZArith.
+From TV Require Import Num.Num Num.QNum.
+From TV Require Model.Cache Model.EngineReal Proofs.EngineReal Model.EngineRealToy Model.BlockEngineRun Model.BlockEngineRealRun.
 Import ListNotations.
 
 (* a memoised evaluation returns what the cache-free evaluation of the same skeleton returns, keeps every cache entry
@@ -342,6 +345,140 @@ Theorem C01_traced_memo_brackets :
     exists hit mid, evs = EQuery S In (style_of S In Out Lay t) i hit :: mid ++ [EReturn S In (style_of S In Out Lay t)]
                     /\ (hit = true -> mid = [] /\ t' = t).
 Proof. intros. eapply memo_traced_brackets; eauto. Qed.
+
+(* ================================================================================================================
+   The engine with the REAL cache (wave 6c; Model/EngineReal.v, notes/REALCACHE.md).
+   `gmemo` is the recursion of `memo` written over a cache INTERFACE (get / store / clear + the ghost test `clossy`), with per-node
+   counters; `memo_exact` is its instance with the exact-key cache above, `memo_real` its instance with src/tree/cache.rs (the
+   lossy compatibility test and the nine slots of Model/Cache.v over the key projection (known_dimensions, available_space) of
+   the input; every entry also keeps the COMPLETE input and output it was stored with, as ghost state).  `memo_real` with the block
+   algorithm and the leaf kernel is what the whole-tree correspondence `vh blocktree cases .. real` runs against
+   `TaffyTree::compute_layout_with_measure` WITHOUT the exact-key hook: layouts bit for bit, query / hit / measure counts exactly. *)
+Module RealCache.
+Import TV.Model.EngineReal TV.Proofs.EngineReal TV.Model.EngineRealToy.
+
+(* the generalisation is conservative: the exact instance of the generic engine IS `memo` (trees embedded; counters forgotten),
+   so every theorem above is a theorem about `memo_exact` *)
+Theorem C01_exact_instance_is_memo :
+  forall (S In Out Lay : Type) (mode : In -> RunMode) (in_eqb : In -> In -> bool) (is_none : S -> bool)
+         (hidden_out : Out) (zero_lay : Lay) (algo : S -> list S -> In -> Alg In Out Lay) (mcalls : S -> list S -> In -> N) f t i,
+    option_map (fun p => (fst p, forget S In Out Lay (snd p)))
+               (memo_exact S In Out Lay mode in_eqb is_none hidden_out zero_lay algo mcalls f t i)
+    = memo S In Out Lay mode in_eqb is_none hidden_out zero_lay algo f (forget S In Out Lay t) i.
+Proof. intros. apply gmemo_exact_is_memo. Qed.
+
+(* ANY cache behind the interface whose non-lossy hits return an entry that was stored for exactly the queried input (ghost view
+   `centries`; `store` adds the stored pair, `clear` adds nothing): an evaluation during which NO LOSSY HIT occurs (the lossy-hit
+   counters of the whole tree did not move) returns what the cache-free evaluation of the skeleton returns, keeps every ghost
+   entry of every cache valid and leaves shape / styles untouched.  Displaced entries only cost re-evaluations. *)
+Theorem C01_real_sound_when_no_lossy_hit :
+  forall (S In Out Lay : Type) (mode : In -> RunMode) (is_none : S -> bool) (hidden_out : Out) (zero_lay : Lay)
+         (algo : S -> list S -> In -> Alg In Out Lay) (mcalls : S -> list S -> In -> N)
+         (C : Type) (cget : C -> In -> option Out) (clossy : C -> In -> bool) (cstore : C -> In -> Out -> C) (cclear : C -> C)
+         (centries : C -> list (In * Out)),
+    (forall c i o, cget c i = Some o -> clossy c i = false -> List.In (i, o) (centries c)) ->
+    (forall c i o e, List.In e (centries (cstore c i o)) -> e = (i, o) \/ List.In e (centries c)) ->
+    (forall c e, List.In e (centries (cclear c)) -> List.In e (centries c)) ->
+    forall f t i o t',
+      GValid S In Out Lay mode is_none hidden_out algo C centries t ->
+      gmemo S In Out Lay mode is_none hidden_out zero_lay algo mcalls C cget clossy cstore cclear f t i = Some (o, t') ->
+      sum_stats S Lay C n_lossy t' = sum_stats S Lay C n_lossy t ->
+      (exists f', plain S In Out Lay mode is_none hidden_out algo f' (gskel S Lay C t) i = Some o) /\
+      GValid S In Out Lay mode is_none hidden_out algo C centries t' /\
+      gskel S Lay C t' = gskel S Lay C t.
+Proof.
+  intros until centries. intros Hg Hs Hc f t i o t' HV Hm HL.
+  eapply (gmemo_sound_when_faithful S In Out Lay mode is_none hidden_out zero_lay algo mcalls C cget clossy cstore cclear centries Hg Hs Hc);
+    [exact HV|exact Hm|]. rewrite !tl_sum. rewrite HL. apply N.le_refl.
+Qed.
+
+(* the real cache of src/tree/cache.rs: a `memo_real` evaluation without lossy hit returns the output the EXACT-KEY memo returns on
+   any valid tree with the same skeleton (e.g. the freshly built one), and keeps the tree valid -- so the exact-key theorems
+   (C01_memo_sound, C01_root_output_equals_fresh, ...) transfer to real-cache runs in the class the correspondence measures
+   (`lossy_hits` of a case = 0: 66-71 % of the generated trees, recorded in the evidence).
+   `_partial`: OUTPUTS only.  The stored layouts are not covered: without NS (which taffy's block algorithm falsifies) an exact-key
+   hit may leave layouts that a real-cache re-evaluation rewrites, so "same layouts" needs the hypotheses of
+   C01_layouts_equal_fresh_for_nonscribbling_algorithms ported to the interface (not done); on the generated trees the
+   correspondence finds NO tree without lossy hit whose layouts differ from the exact-key run (evidence key
+   trees_whose_layout_differs_from_the_exact_key_run / of_which_without_lossy_hit).
+   Premises: `in_eqb` decides equality of complete inputs (as in C01_memo_sound); `is_outer o` only accepts outputs that
+   `from_outer_size` reproduces from their size (a ComputeSize hit returns from_outer_size of the cached size). *)
+Theorem C01_real_equals_exact_when_no_lossy_hit_partial :
+  forall (T : Type) (NT : Num T) (S In Out Lay : Type) (mode : In -> RunMode) (is_none : S -> bool) (hidden_out : Out) (zero_lay : Lay)
+         (algo : S -> list S -> In -> Alg In Out Lay) (mcalls : S -> list S -> In -> N)
+         (key_of : In -> Cache.key T) (osize : Out -> Cache.size T) (from_outer : Cache.size T -> Out)
+         (in_eqb : In -> In -> bool) (is_outer : Out -> bool),
+    (forall a b, in_eqb a b = true -> a = b) ->
+    (forall o, is_outer o = true -> from_outer (osize o) = o) ->
+    forall f t i o t' fe te oe te',
+      RValid S In Out Lay mode is_none hidden_out algo t ->
+      memo_real S In Out Lay mode is_none hidden_out zero_lay algo mcalls key_of osize from_outer in_eqb is_outer f t i = Some (o, t') ->
+      sum_stats S Lay (rcache In Out) n_lossy t' = sum_stats S Lay (rcache In Out) n_lossy t ->
+      Valid S In Out Lay mode is_none hidden_out algo te ->
+      skel S In Out Lay te = gskel S Lay (rcache In Out) t ->
+      memo S In Out Lay mode in_eqb is_none hidden_out zero_lay algo fe te i = Some (oe, te') ->
+      o = oe /\ RValid S In Out Lay mode is_none hidden_out algo t' /\ gskel S Lay (rcache In Out) t' = gskel S Lay (rcache In Out) t.
+Proof.
+  intros T NT S In Out Lay mode is_none hidden_out zero_lay algo mcalls key_of osize from_outer in_eqb is_outer He Ho.
+  intros. eapply (@memo_real_equals_exact T NT); eauto.
+Qed.
+
+(* a freshly built real-cache tree satisfies the invariant the theorem starts from *)
+Theorem C01_real_fresh_valid :
+  forall (S In Out Lay : Type) (mode : In -> RunMode) (is_none : S -> bool) (hidden_out : Out) (zero_lay : Lay)
+         (algo : S -> list S -> In -> Alg In Out Lay) k,
+    RValid S In Out Lay mode is_none hidden_out algo (fresh_real S In Out Lay zero_lay k) /\
+    gskel S Lay (rcache In Out) (fresh_real S In Out Lay zero_lay k) = k.
+Proof. intros. apply RValid_fresh. Qed.
+
+(* non-vacuity, computed (Model/EngineRealToy.v: 6 nodes, one display:none subtree; the key forgets the lowest bit of the input
+   number): the premises of the transfer theorem hold for the instance; two passes with the same root input produce no lossy hit
+   and return what the exact-key memo returns on the fresh tree (24) *)
+Example C01_real_transfer_example :
+  (forall a b, t_in_eqb a b = true -> a = b) /\ (forall o, tr_is_outer o = true -> tr_from_outer (tr_osize o) = o) /\
+  tr_passes (tr_fresh tr_k) [(PerformLayout, 4%N); (PerformLayout, 4%N)] = [Some (24%N, 0%N); Some (24%N, 0%N)] /\
+  tx_fresh_out (PerformLayout, 4%N) = Some 24%N.
+Proof.
+  split; [exact t_in_eqb_eq|]. split; [|split; vm_compute; reflexivity].
+  intros o _. unfold tr_from_outer, tr_osize, xq_of_N. cbn. rewrite Z.div_1_r. apply N2Z.id.
+Qed.
+
+(* ... and the premise "no lossy hit" cannot be dropped: the model witness of the known finding lossy-cache-key at the engine
+   level.  Third pass with root input 5 = another complete input with the same (known_dimensions, available_space) as 4: the root's
+   final-layout entry answers (one lossy hit is counted) with 24, where the exact-key memo / a fresh tree returns 28. *)
+Theorem C01_real_lossy_hit_refuted :
+  tr_passes (tr_fresh tr_k) [(PerformLayout, 4%N); (PerformLayout, 5%N)] = [Some (24%N, 0%N); Some (24%N, 1%N)] /\
+  tx_fresh_out (PerformLayout, 5%N) = Some 28%N.
+Proof. split; vm_compute; reflexivity. Qed.
+
+(* the same finding on the model the correspondence runs, with taffy's own leaf algorithm over binary32 (a generated case,
+   `vh blocktree case 2 649`, replayed on the implementation by every run of the correspondence that contains it): ONE node -- a leaf
+   `size 92.5 x 195, min-width 157.75, padding-left / -top 12.5 %, measure Fixed(67.75, 18.5)` -- laid out under 182.25 x 169 and then
+   under max-content x 85.5.  Both root queries carry the same known dimensions (157.75, 195), so the real cache answers the second
+   from the first (1 lossy hit: the parent size differs, and the percentage padding resolves against it): content size
+   93.53125 x 43.53125 is kept where the exact-key memo (and a fresh tree) computes 70.75 x 20.75.  Encoded input and outputs as the
+   runners of the two correspondences print them (layout integers; the real-cache runner prefixes lossy hits and evaluations and
+   appends queries / hits / measure calls per node). *)
+Definition lossy_block_case : list Z :=
+  [2; 0; 1127628800; 0; 1126760448; 2; 0; 0; 1118502912; 0; 0; 0; 0; 0; 0; 0; 2; 0; 2; 0; 2; 0; 2; 0; 0; 1119420416; 0; 1128464384; 0;
+   1126023168; 0; 1101135872; 2; 0; 2; 0; 0; 0; 0; 0; 0; 0; 0; 0; 0; 0; 1; 1040187392; 0; 1077936128; 1; 1040187392; 0; 1074790400; 0;
+   0; 0; 0; 0; 0; 0; 0; 3; 1; 1116176384; 1100218368; 0]%Z.
+Theorem C01_real_lossy_hit_refuted_on_a_block_tree :
+  TV.Model.BlockEngineRun.run_case lossy_block_case =
+    ([0; 0; 0; 1126023168; 1128464384; 1119555584; 1110319104; 0; 0; 0; 0; 0; 0; 1102462976; 1077936128; 1102462976; 1074790400; 0; 0; 0; 0] ++
+     [0; 0; 0; 1126023168; 1128464384; 1116569600; 1101398016; 0; 0; 0; 0; 0; 0; 0; 1077936128; 0; 1074790400; 0; 0; 0; 0])%Z /\
+  TV.Model.BlockEngineRealRun.run_case_real lossy_block_case =
+    ([1; 1] ++
+     [0; 0; 0; 1126023168; 1128464384; 1119555584; 1110319104; 0; 0; 0; 0; 0; 0; 1102462976; 1077936128; 1102462976; 1074790400; 0; 0; 0; 0] ++ [1; 0; 1] ++
+     [0; 0; 0; 1126023168; 1128464384; 1119555584; 1110319104; 0; 0; 0; 0; 0; 0; 0; 1077936128; 0; 1074790400; 0; 0; 0; 0] ++ [1; 1; 0])%Z.
+Proof. split; vm_compute; reflexivity. Qed.
+Print Assumptions C01_exact_instance_is_memo.
+Print Assumptions C01_real_sound_when_no_lossy_hit.
+Print Assumptions C01_real_equals_exact_when_no_lossy_hit_partial.
+Print Assumptions C01_real_fresh_valid.
+Print Assumptions C01_real_lossy_hit_refuted.
+Print Assumptions C01_real_lossy_hit_refuted_on_a_block_tree.
+End RealCache.
 
 Print Assumptions C01_memo_sound.
 Print Assumptions C01_root_output_equals_fresh.
